@@ -417,6 +417,23 @@ def run_modes(model, cm, old_models, proto, rng, stats, viols, ctx, only=None):
             vals_new = sw.gen_values(env_new, ns, proto, r.fork("new"), finite=True, items=(0, 4))
             data_new = codec_new.encode_stream(proto, ns, schema_new, vals_new, sw.gen_partitions(proto, vals_new, r))
             inputs.append(data_new)
+            if rep == 0:
+                # (d) the caller's variables are reused from file to file: a file of the current version is read into them first,
+                # then the old one into the same variables (what the new version added must come out as the default all the same),
+                # and what the second pass delivered is written out under the current version
+                def read_all(vv, steps_):
+                    ops_ = []
+                    for k_, (_, _, st_) in enumerate(steps_):
+                        ops_ += ([["R1D", k_]] * (len(vv[k_]) + 1)) if st_ else [["R1D", k_]]
+                    return ops_
+                script = [["mkRI", "binary", len(inputs) - 1]] + read_all(vals_new, proto.steps) + [["CR"], ["CLRQ"], ["mkRI", "binary", len(inputs) - 2]] + read_all(vals_old, old_proto.steps if len(old_proto.steps) == len(proto.steps) else proto.steps)
+                script += [["CR"], ["mkW", "binary", "Current"]]
+                if len(old_proto.steps) == len(proto.steps):
+                    for k_, (_, _, st_) in enumerate(proto.steps):
+                        script += ([["W1", k_]] * len(vals_old[k_]) + [["E", k_]]) if st_ else [["W1", k_]]
+                    script += [["CW"]]
+                    runs.append({"proto": proto.name, "op": "script", "input": len(inputs) - 1, "script": script})
+                    meta.append(("old_to_new_reused_destination", label, vals_old, old_proto, old_env, codec_old, old_schemas[proto.name]))
             runs.append({"proto": proto.name, "op": "relay", "in_fmt": "binary", "out_fmt": "binary", "input": len(inputs) - 1, "batch": [1] * nb, "version": label})
             meta.append(("new_to_old", label, vals_new, old_proto, old_env, codec_old, old_schemas[proto.name]))
     if not runs:
@@ -435,7 +452,7 @@ def run_modes(model, cm, old_models, proto, rng, stats, viols, ctx, only=None):
         # reference conversion
         del LOSSY[:]
         try:
-            if mode == "old_to_new":
+            if mode in ("old_to_new", "old_to_new_reused_destination"):
                 want = convert_protocol(old_env, old_proto, ns, env_new, proto, ns, vals)
                 dec = lambda out: codec_new.decode_stream(proto, ns, out, schema_new)[0]
                 tgt_env, tgt_proto = env_new, proto
@@ -460,6 +477,8 @@ def run_modes(model, cm, old_models, proto, rng, stats, viols, ctx, only=None):
             stats["reference_says_zero_value_or_runtime_error"] = stats.get("reference_says_zero_value_or_runtime_error", 0) + 1
             if not res["ok"]:
                 continue       # the runtime error the documentation allows for a value of a removed union case
+        if mode == "old_to_new_reused_destination" and res["ok"] and any(c_.get("r") == "exc" for c_ in res.get("calls", [])):
+            res = dict(res, ok=False, phase="script", what=next(c_.get("what") for c_ in res["calls"] if c_.get("r") == "exc"))
         if not res["ok"]:
             viols.append(({"class": "error_on_convertible_stream", "mode": mode}, doc(model, proto, ctx, mode, label, vals, "%s: %s" % (res["phase"], res.get("what")))))
             continue
